@@ -420,13 +420,23 @@ func c14Decorator(w *World) {
 	ds := NewDecoratorSetup(w, DGenOpts{MaxDecorators: 1, MaxWorkers: 2})
 	cfg := ds.Cfgs[0]
 	cfg.ResyncSeconds = 0
-	cfg.Resources[0].IgnoreStatus = t.Pick(2, "ignorestatus") == 1
+	// in a third of the runs the decorator has a second resource rule, listed first, for a
+	// kind of another API group (no such objects exist): discovery of that group can be
+	// down while a target of the other rule changes
+	twoRules := t.Pick(3, "tworules") == 2 && cfg.Resources[0].Res != ResWidget && cfg.Attachments[0].Res != ResWidget
+	if twoRules {
+		cfg.Resources = append([]DecoratorResourceRule{{Res: ResWidget}}, cfg.Resources...)
+		ds.Opts.Proc.Discovery = 2 * time.Second
+		w.Cfg["rules"] = "two (Widget first)"
+	}
+	tr := &cfg.Resources[len(cfg.Resources)-1]
+	tr.IgnoreStatus = t.Pick(2, "ignorestatus") == 1
 	EditObject(w, ResDecoratorCtl, "", cfg.Name, "setup", func(o Object) { o["spec"] = cfg.Object()["spec"] })
 	w.ResyncHint = 0
 	sig := copySig(ds.Sig)
-	sig["ignoreStatusChanges"] = fmt.Sprint(cfg.Resources[0].IgnoreStatus)
+	sig["ignoreStatusChanges"] = fmt.Sprint(tr.IgnoreStatus)
 	queue := cfg.QueueName()
-	tres := cfg.Resources[0].Res
+	tres := tr.Res
 	ares := cfg.Attachments[0].Res
 	selected := func(o Object) bool {
 		return o != nil && (cfg.Selects(tres, o) || hasFinalizer(o, cfg.FinalizerName()))
@@ -444,6 +454,9 @@ func c14Decorator(w *World) {
 				start = w.step
 				mustSync, noAdd, mustAdd = map[string]bool{}, false, false
 				events := []string{"target-spec", "target-status", "target-labels", "unselected-target-edit", "attachment-edit", "attachment-delete", "foreign-attachment", "wrong-uid-attachment", "target-delete"}
+				if twoRules {
+					events = append(events, "target-spec-while-discovery-of-the-other-rule-is-down", "target-spec-while-discovery-of-the-other-rule-is-down")
+				}
 				name = events[w.T.Pick(len(events), "event")]
 				w.FaultsFired["event:"+name]++
 				p := ds.Targets[w.T.Pick(len(ds.Targets), "which")]
@@ -453,6 +466,29 @@ func c14Decorator(w *World) {
 				}
 				key := p.NS + "/" + p.Name
 				switch name {
+				case "target-spec-while-discovery-of-the-other-rule-is-down":
+					// the document of the first rule's group-version is unavailable and the
+					// resource map has dropped it; a target of the second rule changes; then
+					// discovery comes back. The target has to be synced all the same.
+					w.DiscoveryDown = map[string]bool{"kids.example.com/v1": true}
+					for i := 0; i < 6 && w.Proc.Resources.Get("kids.example.com/v1", "widgets") != nil; i++ {
+						w.SleepHard(1100 * time.Millisecond)
+						for j := 0; j < 40 && !w.Idle(); j++ {
+							w.StepOnce(FairPolicy)
+						}
+					}
+					start = w.step
+					if w.Proc.Resources.Get("kids.example.com/v1", "widgets") == nil {
+						w.Probe("c14:target-changed-while-another-rule's-group-is-undiscoverable")
+					}
+					EditObject(w, p.Res, p.NS, p.Name, "user", func(o Object) { setPath(o, fmt.Sprintf("c%d", w.step), "spec", "color") })
+					if selected(po) {
+						mustSync[key] = true
+					}
+					for i := 0; i < 12; i++ {
+						w.StepOnce(FairPolicy)
+					}
+					w.DiscoveryDown = nil
 				case "target-spec":
 					EditObject(w, p.Res, p.NS, p.Name, "user", func(o Object) { setPath(o, fmt.Sprintf("c%d", w.step), "spec", "color") })
 					if selected(po) {
@@ -461,9 +497,9 @@ func c14Decorator(w *World) {
 				case "target-status":
 					EditStatus(w, p.Res, p.NS, p.Name, "other", func(o Object) { setPath(o, fmt.Sprint(w.step), "status", "foreign") })
 					if selected(po) {
-						if cfg.Resources[0].IgnoreStatus && tres.Status && metaRO(po)["deletionTimestamp"] == nil {
+						if tr.IgnoreStatus && tres.Status && metaRO(po)["deletionTimestamp"] == nil {
 							noAdd = true
-						} else if !cfg.Resources[0].IgnoreStatus {
+						} else if !tr.IgnoreStatus {
 							mustSync[key] = true
 						}
 					}
